@@ -105,7 +105,7 @@ def run(tier):
     with open(vf, "w") as f:
         for j, o in zip(jobs, outs):
             f.write(json.dumps(dict(j, out=o)) + "\n")
-    for cfg in ["stable", "nightly"] + (["simd"] if thorough else []):
+    for cfg in ["stable", "nightly", RELEASE] + (["simd"] if thorough else []):
         o = os.path.join(wd, "vec_%s.json" % cfg)
         conform(cfg, ["prims-vectors", vf, o])
         _merge(ck, json.load(open(o)), "" if cfg == "stable" else "[%s] " % cfg)
@@ -114,6 +114,9 @@ def run(tier):
         reps = parallel("stable", lambda o, k, n: ["prims-sweep-c07", o, ck.seed + s, 1100, k, n], nproc, os.path.join(wd, "sweep"))
         for rep in reps:
             _merge(ck, rep, "")
+    reps = parallel(RELEASE, lambda o, k, n: ["prims-sweep-c07", o, ck.seed, 1100, k, n], nproc, os.path.join(wd, "sweep_release"))
+    for rep in reps:
+        _merge(ck, rep, "[%s] " % RELEASE)
     if not ck.cov["distinct_nontrivial"]:
         ck.cov["distinct_nontrivial"] = len(jobs) + 1101
     ck.cov["vectors_from_tla_reference"] = len(jobs)
